@@ -1932,9 +1932,9 @@ class unyt_array(np.ndarray):
                     # with zeros
                     if not isinstance(i0, unyt_array) or not isinstance(i1, unyt_array):
                         any_nonzero = [np.count_nonzero(i0), np.count_nonzero(i1)]
-                        if any_nonzero[0] == 0:
+                        if any_nonzero[0] == 0 and not isinstance(i0, unyt_array):
                             u0 = u1
-                        elif any_nonzero[1] == 0:
+                        elif any_nonzero[1] == 0 and not isinstance(i1, unyt_array):
                             u1 = u0
                     if not u0.same_dimensions_as(u1):
                         if unit_operator is _comparison_unit:
